@@ -76,6 +76,10 @@ type StoreCase struct {
 	Prefix   string      `json:"prefix"`
 	Tasks    [][]TxnSpec `json:"tasks"`
 	Optional []string    `json:"optional"`
+	// Listeners: "" both BeforeChange and OnChange, "none" a store nobody
+	// listens to, "onchange" no BeforeChange (badger store only: the change
+	// callbacks are then not checked, the results of the calls are)
+	Listeners string `json:"listeners,omitempty"`
 }
 
 type typedRec struct {
@@ -101,6 +105,7 @@ func (StoreLinScenario) GenCase(r *rand.Rand, prop string) interface{} {
 	if c.Backend == "badger" {
 		c.Typed = chance(r, 50)
 		c.Prefix = pick(r, "", "pre", "a.b")
+		c.Listeners = pick(r, "", "", "", "none", "onchange")
 	}
 	for _, p := range storePoints {
 		if chance(r, 60) {
@@ -134,7 +139,7 @@ func (StoreLinScenario) GenCase(r *rand.Rand, prop string) interface{} {
 						op.WrongType = true
 					}
 				}
-				if c.Backend == "badger" && (op.Kind == "create" || op.Kind == "update" || op.Kind == "delete") && chance(r, 8) {
+				if c.Backend == "badger" && c.Listeners == "" && (op.Kind == "create" || op.Kind == "update" || op.Kind == "delete") && chance(r, 8) {
 					op.Veto = true
 				}
 				if c.Backend == "badger" && (op.Kind == "create" || op.Kind == "update" || op.Kind == "delete") && chance(r, 6) {
@@ -281,12 +286,14 @@ func (StoreLinScenario) Execute(sim *sched.Sim, ci interface{}, prop string, rac
 		if c.Typed {
 			bs.SetType(typedRec{})
 		}
-		bs.BeforeChange(func(id string, before, after interface{}) error {
-			if t := sim.Current(); t != nil && sr.veto[t.Name] {
-				return errors.New("vetoed by BeforeChange")
-			}
-			return nil
-		})
+		if c.Listeners == "" {
+			bs.BeforeChange(func(id string, before, after interface{}) error {
+				if t := sim.Current(); t != nil && sr.veto[t.Name] {
+					return errors.New("vetoed by BeforeChange")
+				}
+				return nil
+			})
+		}
 		st = bs
 		badgerstore.VerifHook = sim.Yield
 		badger.VerifHook = sim.Yield
@@ -308,15 +315,19 @@ func (StoreLinScenario) Execute(sim *sched.Sim, ci interface{}, prop string, rac
 			taskqueue.Hook = nil
 		}()
 	}
-	st.OnChange(func(id string, before, after interface{}) {
-		name := "?"
-		if t := sim.Current(); t != nil {
-			name = t.Name
-		}
-		h.mu.Lock()
-		sr.changes = append(sr.changes, changeRec{Seq: sim.Seq(), Task: name, ID: id, Before: valOf(before), After: valOf(after)})
-		h.mu.Unlock()
-	})
+	if c.Listeners == "none" {
+		sim.Probe("store.no-listeners")
+	} else {
+		st.OnChange(func(id string, before, after interface{}) {
+			name := "?"
+			if t := sim.Current(); t != nil {
+				name = t.Name
+			}
+			h.mu.Lock()
+			sr.changes = append(sr.changes, changeRec{Seq: sim.Seq(), Task: name, ID: id, Before: valOf(before), After: valOf(after)})
+			h.mu.Unlock()
+		})
+	}
 	ntasks := len(c.Tasks)
 	tasks := make([]*sched.Task, 0, ntasks+1)
 	txnCount := 0
@@ -379,7 +390,9 @@ func (StoreLinScenario) Execute(sim *sched.Sim, ci interface{}, prop string, rac
 	}
 	sr.checkLocal()
 	sr.checkIsolation()
-	sr.checkCallbacks()
+	if c.Listeners != "none" {
+		sr.checkCallbacks()
+	}
 	if db != nil {
 		db.Close()
 	}
